@@ -236,7 +236,30 @@ def rule_c(ctx, raws):
            'change-notification flag', rw.loc,
            f'children keep stale indices after list.{rw.slot}: path to exit without re-index {wit}',
            wit)
+    # a raw operation that runs caller-supplied code (sort: key function / comparison) can
+    # raise half-way, with the storage already partly reordered: the re-index covers the
+    # exceptional way out as well (it sits in a `finally` around the raw call)
+    if rw.slot == 'sort':
+      in_finally = any(isinstance(t, ast.Try) and any(rw.call is x for b_ in t.body for x in ast.walk(b_))
+                       and any(_stmt_reindexes(idx, f, st) for st in t.finalbody) for t in ast.walk(f.node))
+      ctx.ob('C01.c', f'{f.fq}#list.{rw.slot}#exceptional', in_finally,
+             'a sort that raises (user key / comparison) still re-indexes the children of the partly reordered list',
+             rw.loc, 'the re-index is skipped when the comparison raises: children keep the paths of their old positions')
   return n
+
+
+def _stmt_reindexes(idx, func, st):
+  for c in ast.walk(st):
+    if isinstance(c, ast.Call):
+      d = A.call_name(c) or ''
+      if d.endswith('.sym_setpath'):
+        return True
+      if d.startswith('self.') and d.count('.') == 1:
+        cls = idx.enclosing_class(func)
+        callee = idx.lookup_method(cls.fq, d.split('.')[1]) if cls else None
+        if callee is not None and any((A.call_name(x) or '').endswith('.sym_setpath') for x in A.calls_in(callee.node)):
+          return True
+  return False
 
 
 def _under_notify_flag(g, node):
@@ -670,7 +693,7 @@ def rule_h(ctx):
   idx = ctx.index
   n = 0
   COPIERS = ('copy.deepcopy', 'deepcopy')
-  for q in ('pyglove.core.typing.class_schema.Schema.apply',
+  for q in ('pyglove.core.typing.class_schema.Schema.apply', 'pyglove.core.typing.value_specs.ValueSpecBase.apply',
             S.DICT + '._formalized_value', S.LIST + '._formalized_value', S.OBJECT + '._formalized_value'):
     f = idx.find_func(q)
     if f is None:
@@ -737,7 +760,7 @@ def rule_i(ctx):
 
 
 def run(ctx):
-  ctx.consult(*FILES, 'pyglove/core/typing/class_schema.py')
+  ctx.consult(*FILES, 'pyglove/core/typing/class_schema.py', 'pyglove/core/typing/value_specs.py')
   c08.rule_a(ctx, 'C01.a')
   raws = rule_m2(ctx)
   rule_b(ctx, raws)
